@@ -17,6 +17,7 @@ Tie, on every run and against the object code of /repo's current tree:
           (mismatch), and applies the executable property checker ok_call to the implementation's
           text (violations).
 """
+import itertools
 import json
 import os
 import re
@@ -1229,16 +1230,26 @@ def fits(c, pspecs, actual):
 
 # ================================================================== end to end: compiled programs, --auto-args
 E2E_HEAD = """#include <complex.h>
+#include <stdlib.h>
+#include <string.h>
 struct big { long a, b, c; };
 struct pair { int x, y; };
+enum color { RED, GREEN, BLUE = 5, MAUVE = 100001 };
+enum flags { FA = 1, FB = 2, FC = 4, FD = 0x100 };
 """
+E2E_ENUM = {"enum color": {"RED": 0, "GREEN": 1, "BLUE": 5, "MAUVE": 100001},
+            "enum flags": {"FA": 1, "FB": 2, "FC": 4, "FD": 0x100}}
+# calls of libc functions at the end of main: their specs come from the built-in auto-args table (utils/auto-args.h)
+E2E_LIBC_CALLS = '  sink += atoi("4217");\n  sink += strcmp(zz, "zebra");\n  sink += getenv("C09_NOT_SET") != 0;\n'
+E2E_LIBC_LINES = [b'  atoi("4217") = 4217;', b'  strcmp("zebra", "zebra") = 0;', b'  getenv("C09_NOT_SET") = "NULL";']
 # (C type, kind, bits, signed)
 E2E_TYPES = [("int", "int", 32, True), ("unsigned int", "int", 32, False), ("long", "int", 64, True),
              ("unsigned long", "int", 64, False), ("short", "int", 16, True), ("unsigned short", "int", 16, False),
              ("signed char", "int", 8, True), ("unsigned char", "int", 8, False), ("long long", "int", 64, True),
              ("char", "char", 8, True), ("const char *", "str", 64, False), ("double", "flt", 64, True),
              ("float", "flt", 32, True), ("long double", "flt", 80, True), ("struct big", "struct", 192, False),
-             ("struct pair", "struct", 64, False), ("int *", "nullptr", 64, False), ("void (*%s)(void)", "fnptr", 64, False)]
+             ("struct pair", "struct", 64, False), ("int *", "nullptr", 64, False), ("void (*%s)(void)", "fnptr", 64, False),
+             ("enum color", "enum", 32, False), ("enum flags", "enum", 32, False)]
 
 
 def int_cands(v, bits):
@@ -1274,6 +1285,15 @@ class E2EGen:
             return lit, ["txt", int_cands(v, bits), ["ints", sorted(set(int(x, 0) if not x.startswith("0") or x == "0" or
                                                                        x.startswith("0x") else int(x, 8)
                                                                        for x in int_cands(v, bits)))]]
+        if kind == "enum":
+            defs = E2E_ENUM[ct]
+            if ct == "enum color" or r.random() < 0.3:
+                nm = r.choice(sorted(defs))
+                return nm, ["txt", [nm], ["ints", [defs[nm]]]]
+            names = r.sample(sorted(defs), r.randrange(2, 4))          # an OR of distinct flag bits
+            v = sum(defs[n] for n in names)
+            return "(enum flags)(%s)" % "|".join(names), ["txt", ["|".join(p) for p in itertools.permutations(names)],
+                                                          ["ints", [v]]]
         if kind == "char":
             ch = r.choice("xyzAZ09 _-+")
             return "'%s'" % ch, ["txt", ["'%s'" % ch], ["str", ch]]
@@ -1297,7 +1317,8 @@ class E2EGen:
     def function(self, k, types=None):
         r = self.rng
         types = types or [r.choice(E2E_TYPES) for _ in range(r.randrange(1, 8))]
-        rett = r.choice([E2E_TYPES[0], E2E_TYPES[2], E2E_TYPES[10], E2E_TYPES[11], None, E2E_TYPES[1]])
+        rett = r.choice([E2E_TYPES[0], E2E_TYPES[2], E2E_TYPES[10], E2E_TYPES[11], None, E2E_TYPES[1], E2E_TYPES[12],
+                         E2E_TYPES[13], E2E_TYPES[18]])
         params, vals, acts = [], [], []
         for i, t in enumerate(types):
             ct = t[0]
@@ -1318,8 +1339,8 @@ class E2EGen:
 
 def e2e_program(funcs):
     return (E2E_HEAD + "volatile int sink;\n__attribute__((noinline)) void g0(void) { sink++; }\n"
-            + "".join(f["src"] for f in funcs) + "int main(void) {\n  g0();\n" + "".join(f["call"] for f in funcs)
-            + "  return 0;\n}\n")
+            + "".join(f["src"] for f in funcs) + "int main(void) {\n  char zz[8];\n  strcpy(zz, \"zebra\");\n  g0();\n"
+            + "".join(f["call"] for f in funcs) + E2E_LIBC_CALLS + "  return 0;\n}\n")
 
 
 def e2e_aval(a):
@@ -1461,6 +1482,12 @@ def e2e_run(ctx, impl, funcs, tag, extra_opts=(), judge_ret=True, scripts=False)
         out.append((lost, "replay lost or garbled records behind a payload: calls shown %s, stderr %r"
                     % (order, p.stderr[-200:].decode("latin-1"))))
         funcs = [f for f in funcs if f is not lost]
+    elif want is not None:
+        # library calls whose specs come from the built-in auto-args table
+        for line in E2E_LIBC_LINES:
+            if not re.search(rb"(?m)^" + re.escape(line) + rb"$", p.stdout):
+                out.append((funcs[-1], "--auto-args on a library call: replay has no line %r (it shows %r)"
+                            % (line.decode(), [l for l in p.stdout.split(b"\n") if l.startswith(line[:6])])))
     for f in funcs:
         sp = specs.get(f["name"])
         if sp is None or f["name"] not in shown:
